@@ -14,6 +14,9 @@ func EndBlocker(ctx sdk.Context, k keeper.Keeper) {
 	}
 
 	for _, dataId := range expiredData.Data {
+		// an order of this model that is still in flight (not yet handed to providers, or no shard
+		// completed) must not outlive the model with its payment locked: refund it first
+		k.CancelInFlightOrder(ctx, dataId)
 		k.DeleteMeta(ctx, dataId)
 	}
 
